@@ -7,6 +7,7 @@ hash seed" is therefore "invariant under every permutation of the list".
 -/
 import AstGrepVerif.Model.Topo
 import AstGrepVerif.Model.Snapshot
+import AstGrepVerif.Model.Rule
 import AstGrepVerif.Lemmas.Topo
 import AstGrepVerif.Lemmas.Order
 
@@ -370,14 +371,15 @@ theorem stepC_local (cons : α → Option (Constraint α V)) (fp : α → α →
     · intro e e' r r' hag hr hr' y hy
       simp at hr hr'; rw [← hr, ← hr']; exact hag y hy
 
-/-- **H20, full statement — false.** `match_constraints` iterates `single_matched` (a `HashMap`)
-and threads one environment through all constraints. Two constraints that bind the same new
-variable make the verdict depend on the iteration order:
-rule `foo($A, $B)`, constraints `A: {has: {kind: number, pattern: $X, stopBy: end}}`,
+/-- **H20, why the captures are sorted.** Before ec1c602 `match_constraints` iterated
+`single_matched` (a `HashMap`) directly while threading one environment through all constraints.
+Two constraints that bind the same new variable then make the verdict depend on the iteration
+order: rule `foo($A, $B)`, constraints `A: {has: {kind: number, pattern: $X, stopBy: end}}`,
 `B: {pattern: g($X)}` on `foo(f(1, 2), g(2))` — variables `A`=0, `B`=1, `X`=9; the candidates of
 `$X` are `[1, 2]` under `A` and `[2]` under `B`. Order A,B fails (X:=1, then 2≠1); order B,A
-matches (X:=2, found again under A). Replayed on the real CLI by the C13 oracle. -/
-theorem constraints_order_irrelevant_counterexample :
+matches (X:=2, found again under A). This is a statement about the *un-sorted* loop
+(`matchConstraints` applied to the raw iteration order); it was confirmed on the real CLI. -/
+theorem constraints_order_irrelevant_unsorted_counterexample :
     let cons : Nat → Option (Constraint Nat Nat) := fun x =>
       if x = 0 then some (captureFirst 9 [1, 2]) else if x = 1 then some (captureFirst 9 [2]) else none
     let e0 : CEnv Nat Nat := fun _ => none
@@ -385,7 +387,68 @@ theorem constraints_order_irrelevant_counterexample :
   decide
 
 omit [DecidableEq α] in
-/-- **H20, provable restriction.** When every constraint only reads and writes its own set of
+/-- **H20, full statement for the code as it is now.** `match_constraints` collects the
+constrained captures, sorts them by variable name and only then runs the constraints: verdict
+*and* resulting environment are the same for every iteration order of the capture map — for
+arbitrary constraints (shared variables included), any total order on the names. -/
+theorem constraints_order_irrelevant (le : α → α → Bool)
+    (htotal : ∀ a b, le a b = true ∨ le b a = true)
+    (htrans : ∀ a b c, le a b = true → le b c = true → le a c = true)
+    (hanti : ∀ a b, le a b = true → le b a = true → a = b)
+    (cons : α → Option (Constraint α V)) (vars vars' : List α) (hp : vars.Perm vars') (e : CEnv α V) :
+    matchConstraintsSorted le cons vars e = matchConstraintsSorted le cons vars' e := by
+  unfold matchConstraintsSorted
+  rw [sortByLe_canonical htotal htrans hanti (hp.filter _)]
+
+/-- … instantiated with the order of the code: `String`'s `Ord` on the variable names -/
+theorem constraints_order_irrelevant_names {V : Type} (cons : List Char → Option (Constraint (List Char) V))
+    (vars vars' : List (List Char)) (hp : vars.Perm vars') (e : CEnv (List Char) V) :
+    matchConstraintsSorted AGV.Topo.nameLe cons vars e = matchConstraintsSorted AGV.Topo.nameLe cons vars' e :=
+  constraints_order_irrelevant AGV.Topo.nameLe nameLe_total nameLe_trans nameLe_antisymm cons vars vars' hp e
+
+/-- the order and the sort restated in `Model/Topo.lean` are those of `Model/Rule.lean`
+(`constraintLoop` runs over `sortByName env.single`) -/
+theorem nameLe_eq_rule : ∀ a b : List Char, AGV.Topo.nameLe a b = AGV.nameLe a b := by
+  intro a
+  induction a with
+  | nil => intro b; simp [AGV.Topo.nameLe, AGV.nameLe]
+  | cons x a ih =>
+    intro b
+    cases b with
+    | nil => simp [AGV.Topo.nameLe, AGV.nameLe]
+    | cons y b => simp only [AGV.Topo.nameLe, AGV.nameLe, ih b]
+
+theorem sortByName_eq_sortByLe {β : Type} (l : List (AGV.Name × β)) :
+    (AGV.sortByName l).map (·.1) = sortByLe AGV.Topo.nameLe (l.map (·.1)) := by
+  have hins : ∀ (x : AGV.Name × β) (ys : List (AGV.Name × β)),
+      (AGV.insertByName x ys).map (·.1) = insertByLe AGV.Topo.nameLe x.1 (ys.map (·.1)) := by
+    intro x ys
+    induction ys with
+    | nil => simp [AGV.insertByName, insertByLe]
+    | cons y ys ih =>
+      simp only [AGV.insertByName, insertByLe, List.map_cons, nameLe_eq_rule]
+      split
+      · simp
+      · simp [ih]
+  induction l with
+  | nil => simp [AGV.sortByName, sortByLe]
+  | cons x xs ih =>
+    show (AGV.insertByName x (AGV.sortByName xs)).map (·.1) = insertByLe AGV.Topo.nameLe x.1 (sortByLe AGV.Topo.nameLe (xs.map (·.1)))
+    rw [hins, ih]
+
+/-- the witness of the un-sorted counter-example now gives the same verdict in both orders
+(variables sorted: A=0 before B=1, so X:=1 and the constraint on B fails — deterministically) -/
+example :
+    let cons : Nat → Option (Constraint Nat Nat) := fun x =>
+      if x = 0 then some (captureFirst 9 [1, 2]) else if x = 1 then some (captureFirst 9 [2]) else none
+    let e0 : CEnv Nat Nat := fun _ => none
+    (matchConstraintsSorted (fun a b => decide (a ≤ b)) cons [0, 1] e0).isSome = false ∧
+    (matchConstraintsSorted (fun a b => decide (a ≤ b)) cons [1, 0] e0).isSome = false ∧
+    (matchConstraintsSorted (fun a b => decide (a ≤ b)) cons [1, 7, 0] e0).isSome = false := by
+  decide
+
+omit [DecidableEq α] in
+/-- **Order independence that held before the fix too.** When every constraint only reads and writes its own set of
 variables (`Local c (fp x)`) and these sets are pairwise disjoint, the result of
 `match_constraints` (verdict *and* resulting environment) is the same for every iteration order. -/
 theorem constraints_order_irrelevant_partial (cons : α → Option (Constraint α V)) (fp : α → α → Prop)
